@@ -128,6 +128,36 @@ def replay(scs, *, race=False, timeout=1200, repo=None):
     return lines, wall
 
 
+def replay_concurrent(scs, *, callers=4, race=False, timeout=1500, repo=None):
+    """C09: every scenario compiled once and driven by `callers` concurrent logical runs (harness TestVerifConcurrent).
+    Returns (observation lines, wall seconds, raw go test output)."""
+    d = vlib.mkscratch("verif-conc-")
+    cases, out = os.path.join(d, "cases.ndjson"), os.path.join(d, "obs.ndjson")
+    with open(cases, "w") as fh:
+        for sc in scs:
+            fh.write(json.dumps(sc, separators=(",", ":")) + "\n")
+    code, output, wall = vlib.go_test("compose", HARNESS_OVERLAY, "^TestVerifConcurrent$", race=race, timeout=timeout, repo=repo, args=["-test.v"],
+                                      env={"VERIF_CASES": cases, "VERIF_OUT": out, "VERIF_CALLERS": str(callers)})
+    if race and "WARNING: DATA RACE" in output:
+        return (vlib.read_lines(out) if os.path.exists(out) else []), wall, output
+    vlib.go_must_run(code, output, "concurrent replay")
+    if "VERIF-CONCURRENT scenarios=%d" % len(scs) not in output:
+        raise Inconclusive("concurrent replay: harness did not report all scenarios\n" + output[-3000:])
+    return vlib.read_lines(out), wall, output
+
+
+def race_reports(output):
+    """DATA RACE blocks of a `go test -race` output that have a frame in eino's own (non-test) code; top_frame = first such frame."""
+    reps = []
+    for blk in output.split("WARNING: DATA RACE")[1:]:
+        blk = blk.split("==================")[0]
+        frames = re.findall(r"^\s+(github\.com/cloudwego/eino/[^\s(]+)\(.*\n\s+(\S+\.go):(\d+)", blk, re.M)
+        own = [(fn, f, ln) for fn, f, ln in frames if not f.endswith("_test.go") and "zz_verif" not in f]
+        if own:
+            reps.append({"top_frame": own[0][0].replace("github.com/cloudwego/eino/", ""), "file": "%s:%s" % (os.path.basename(own[0][1]), own[0][2]), "text": blk[:1500]})
+    return reps
+
+
 def validate(lines, *, nproc=None, timeout=1800):
     res = vlib.validate_traces("RunObs", "RunObs.cfg", lines, nproc=nproc, timeout=timeout, stack="256m")
     return res
